@@ -111,6 +111,7 @@ func (r *Runtime) arrayBufferProto_getByteLength(call FunctionCall) Value {
 func (r *Runtime) arrayBufferProto_slice(call FunctionCall) Value {
 	o := r.toObject(call.This)
 	if b, ok := o.self.(*arrayBufferObject); ok {
+		b.ensureNotDetached(true)
 		l := int64(len(b.data))
 		start := relToIdx(call.Argument(0).ToInteger(), l)
 		var stop int64
@@ -123,17 +124,16 @@ func (r *Runtime) arrayBufferProto_slice(call FunctionCall) Value {
 		newLen := max(stop-start, 0)
 		ret := r.speciesConstructor(o, r.getArrayBuffer())([]Value{intToValue(newLen)}, nil)
 		if ab, ok := ret.self.(*arrayBufferObject); ok {
-			if newLen > 0 {
-				b.ensureNotDetached(true)
-				if ret == o {
-					panic(r.NewTypeError("Species constructor returned the same ArrayBuffer"))
-				}
-				if int64(len(ab.data)) < newLen {
-					panic(r.NewTypeError("Species constructor returned an ArrayBuffer that is too small: %d", len(ab.data)))
-				}
-				ab.ensureNotDetached(true)
-				copy(ab.data, b.data[start:stop])
+			ab.ensureNotDetached(true)
+			if ret == o {
+				panic(r.NewTypeError("Species constructor returned the same ArrayBuffer"))
 			}
+			if int64(len(ab.data)) < newLen {
+				panic(r.NewTypeError("Species constructor returned an ArrayBuffer that is too small: %d", len(ab.data)))
+			}
+			// the argument coercions or the species constructor may have detached this buffer
+			b.ensureNotDetached(true)
+			copy(ab.data[:newLen], b.data[start:start+newLen])
 			return ret
 		}
 		panic(r.NewTypeError("Species constructor did not return an ArrayBuffer: %s", ret.String()))
